@@ -68,6 +68,7 @@ CANARY_3 = b'CANARY-THREE-91d2b7f3-absolute'
 CANARIES = (CANARY_1, CANARY_2, CANARY_3)
 
 BIG = 20000  # > 2 stream blocks of 8 KiB
+HUGE = 200003  # > 3 * 64 KiB
 T0 = 1500000000  # 2017-07-14 02:40:00 UTC
 
 DESIGN_NAMES = ['a.txt', 'sub/b.bin', 'sub/deep/c', '.hidden', 'sp ace.txt', 'empty']
@@ -91,6 +92,7 @@ def _tree():
     for n in range(0, 10):
         t['rng/s%d' % n] = bytes(range(0x41, 0x41 + n))
     t['rng/big'] = _pattern(BIG, 11)
+    t['rng/huge'] = _pattern(HUGE, 29)
     return t
 
 
@@ -755,6 +757,16 @@ BIG_RANGES = [
     ('suffix', -1, 0), ('suffix', -1, 1), ('suffix', -1, 8191), ('suffix', -1, 8192), ('suffix', -1, 8193),
     ('suffix', -1, BIG - 1), ('suffix', -1, BIG), ('suffix', -1, BIG + 1), ('suffix', -1, 10 * BIG),
 ]
+_K64 = 65536
+HUGE_RANGES = [
+    ('fl', 0, _K64 - 2), ('fl', 0, _K64 - 1), ('fl', 0, _K64), ('fl', 1, _K64), ('fl', _K64 - 1, _K64), ('fl', _K64, 2 * _K64 - 1),
+    ('fl', _K64, 2 * _K64), ('fl', 1, HUGE - 2), ('fl', 0, HUGE - 1), ('fl', 0, HUGE + 9), ('fl', 2 * _K64 - 1, 2 * _K64 + 1),
+    ('fl', 7, 3 * _K64 + 7), ('fl', HUGE - 1, HUGE - 1), ('fl', HUGE, HUGE),
+    ('open', 0, -1), ('open', 1, -1), ('open', _K64 - 1, -1), ('open', _K64, -1), ('open', HUGE - _K64, -1), ('open', HUGE - _K64 - 1, -1),
+    ('open', HUGE - 1, -1), ('open', HUGE, -1),
+    ('suffix', -1, _K64 - 1), ('suffix', -1, _K64), ('suffix', -1, _K64 + 1), ('suffix', -1, 2 * _K64 + 1), ('suffix', -1, HUGE - 1),
+    ('suffix', -1, HUGE), ('suffix', -1, HUGE + 1),
+]
 RANGE_STACKS = ['wsgi', 'wsgi_fw', 'asgi']
 
 
@@ -814,6 +826,11 @@ class Ranges(Suite):
                 for fn in ('rng/big', 'sub/b.bin'):
                     yield {'stack': stack, 'file': fn, 'kind': kind, 'f': f, 'l': l,
                            'range': render_range(kind, f, l), 'lenient': False}
+            for kind, f, l in HUGE_RANGES:
+                yield {'stack': stack, 'file': 'rng/huge', 'kind': kind, 'f': f, 'l': l,
+                       'range': render_range(kind, f, l), 'lenient': False}
+            # the whole file (a unit that is not bytes is ignored: 200 with all 200 003 bytes)
+            yield {'stack': stack, 'file': 'rng/huge', 'kind': 'unit', 'f': 0, 'l': 0, 'range': 'items=0-5', 'lenient': False}
 
     def run(self, case):
         sb = self.sb
@@ -853,6 +870,8 @@ class Ranges(Suite):
             lb.append('size0')
         if size == BIG:
             lb.append('big_file')
+        if size == HUGE:
+            lb.append('huge_file(>3*64KiB)')
         return Info(nontrivial, lb)
 
 
@@ -1077,7 +1096,7 @@ def _suite_teardown(suite):
 
 class FileHistory(Suite):
     """One static route lives through a history of requests interleaved with changes of the file on disk (rewritten with
-    new bytes and a newer mtime, truncated, deleted, re-created): every response must reflect the file as it is at the
+    new bytes and a newer, the same or an older mtime, truncated, deleted, re-created): every response must reflect the file as it is at the
     time of the request: 200 with the current bytes, 304 only when the validator sent is not older than the CURRENT mtime
     (floor to seconds), 404 while the file does not exist; conditional requests carry the Last-Modified value echoed from
     an earlier response of the same history."""
@@ -1094,7 +1113,8 @@ class FileHistory(Suite):
     def strategy(self, tier):
         op = st.one_of(
             st.just(['get']), st.just(['get']), st.just(['get_ims_echo']), st.just(['get_ims_echo']),
-            st.tuples(st.just('rewrite'), st.integers(0, 40), st.sampled_from([1, 2, 60, 86400])).map(list),
+            # 0 / negative: rewritten with the mtime it had before, or an older one (restored from a backup, rsync -t, same second)
+            st.tuples(st.just('rewrite'), st.integers(0, 40), st.sampled_from([1, 2, 60, 86400, 0, 0, -3600])).map(list),
             st.just(['delete']), st.tuples(st.just('get_range'), st.integers(0, 5)).map(list),
             st.tuples(st.just('remount'), st.booleans()).map(list),
         )
